@@ -4,6 +4,7 @@ import Jose.Driver.Util
 import Jose.Driver.B64
 import Jose.Driver.Entity
 import Jose.Driver.Cfg
+import Jose.Driver.IO
 /-
   The handlers of the line protocol that are pure model code (no primitive of Jose/Crypto, no
   `partial`): the very functions the correspondence run compares with the implementation.
@@ -71,7 +72,10 @@ def fmtOps : List (String × (Json → Json)) := [
     | _ => err "unmodelled-subcommand")
 ]
 
-def pureOps : List (String × (Json → Json)) := b64Ops ++ entityOps ++ jwkPureOps ++ fmtOps ++ cfgOps
+/-- chains of the public constructors (the content-decryption stage is registered in Jose/Driver/Jwe.lean) -/
+def ioPureOps : List (String × (Json → Json)) := [("io.run", ioRunWith (fun _ _ _ => none))]
+
+def pureOps : List (String × (Json → Json)) := b64Ops ++ entityOps ++ jwkPureOps ++ fmtOps ++ cfgOps ++ ioPureOps
 
 /-- one row of the regenerated table: the operation, its arguments, what the implementation answered -/
 structure GridRow where
